@@ -515,11 +515,29 @@ func brokerPhase() {
 			hists = append(hists, []reqSpec{a, b})
 		}
 	}
-	for _, withFile := range []bool{false, true} {
+	type sinkSetup struct {
+		withFile  bool
+		restoreAt int // >0: the audit directory is missing and reappears when the broker has received that many messages
+	}
+	for _, su := range []sinkSetup{{false, 0}, {true, 0}, {true, 2}, {true, 3}} {
+		withFile := su.withFile
 		for _, h := range hists {
+			if su.restoreAt > 0 && len(h) > 1 {
+				continue
+			}
 			st := mc.Explore(mc.Options{MaxDeviations: -1}, func(c *mc.Ctx) {
 				vos.Reset()
-				vos.Mkdir("/vfs/audit")
+				if su.restoreAt == 0 {
+					vos.Mkdir("/vfs/audit")
+				}
+				broker.OnPublish = nil
+				if su.restoreAt > 0 {
+					broker.OnPublish = func(n int) {
+						if n == su.restoreAt {
+							vos.Mkdir("/vfs/audit")
+						}
+					}
+				}
 				vos.Fault = nil
 				faketoken.Reset()
 				cfg := relicx.ServerConfig(faketoken.Type)
@@ -560,9 +578,13 @@ func brokerPhase() {
 					parts = append(parts, fmt.Sprintf("%s->%d broker%v", short([]reqSpec{r.req}), r.status, r.conns))
 				}
 				desc := fmt.Sprintf("sinks={amqp broker, file:%v} %s", withFile, strings.Join(parts, "; "))
+				if su.restoreAt > 0 {
+					desc = fmt.Sprintf("sinks={amqp broker, file in a directory that is missing and reappears when the broker has %d message(s)} %s", su.restoreAt, strings.Join(parts, "; "))
+				}
 				replay := map[string]any{"file_sink": withFile, "history": h, "choices": c.Trace, "labels": c.Labels}
 				run.Distinct(desc)
 				broker.Next = func() amqpfake.Behaviour { return amqpfake.Ack }
+				broker.OnPublish = nil
 				// what the broker confirmed, by request file name
 				confirmed := map[string]int{}
 				broker.Counts()
